@@ -172,6 +172,13 @@ def same_outcome(i, m):
 
 
 def evaluate(ctx, cases, res, prop=None):
+    cases = list(cases)
+    big = [c for c in cases if isinstance(c, dict) and c.get('kind') == 'large']
+    if big:
+        evaluate_large(ctx, big, res)
+    cases = [c for c in cases if not (isinstance(c, dict) and c.get('kind') == 'large')]
+    if not cases:
+        return
     prop = prop or PROP
     from txdbus import marshal
     cases = list(cases)
@@ -317,7 +324,33 @@ def pad_table_cases(res):
                 res.violate(c, 'padding for %r at offset %d is %r, specification says %r' % (code, off, p, want), 'alignment-rule')
 
 
+def evaluate_large(ctx, cases, res):
+    """kind 'large': arrays whose data is 2^26 bytes (the DBus limit for an array) or just below - far too long for the
+    extracted model (unary offsets); judged by the property's own oracle alone: the decoder returns the values and
+    consumes exactly what the encoder reported producing.  Either byte order."""
+    from txdbus import marshal
+    import struct
+    for c in cases:
+        n_data, le = c['array_bytes'], c['le']
+        s = 'x' * (n_data - 5)                     # one string: 4 (length) + len + 1 (NUL) = n_data
+        res.count(c, nontrivial=True)
+        try:
+            with common.bounded(60, extra_mb=1500):
+                n, chunks = marshal.marshal('asu', [[s], 7], 0, le)
+                data = b''.join(chunks)
+                m, back = marshal.unmarshal('asu', data, 0, le)
+        except Exception as e:
+            res.violate(c, 'an array of %d data bytes (limit 2^26 = 67108864) does not round-trip: %s: %s'
+                        % (n_data, type(e).__name__, str(e)[:120]), 'large-array-fails')
+            continue
+        declared = struct.unpack_from('<I' if le else '>I', data, 0)[0]
+        if declared != n_data or n != len(data) or m != n or back != [[s], 7]:
+            res.violate(c, 'array of %d data bytes: declared %d, produced %d reported %d consumed %d, values %s'
+                        % (n_data, declared, len(data), n, m, 'equal' if back == [[s], 7] else 'DIFFER'), 'large-array-differs')
+
+
 def run(ctx, res):
+    evaluate_large(ctx, [{'kind': 'large', 'array_bytes': nb, 'le': le} for nb in (2 ** 26 - 4, 2 ** 26) for le in (True, False)], res)
     res.rule = ('typed cases: every signature of <= %d characters from the grammar with canonical values x offsets 0-7 x both '
                 'byte orders%s, random nested signatures (depth <= 4, 1-4 top-level types) with boundary-biased values in random '
                 'Python shapes (list/tuple/object/bytearray/dict/wrapper classes) at offsets 0-15 and a few large ones, nesting to '
